@@ -51,6 +51,8 @@ struct SubS {
 
 type Flags = Rc<RefCell<Vec<(Arc<Flag>, bool)>>>; // (wake flag, last poll returned Pending)
 type Lines = Rc<RefCell<Vec<(String, String)>>>;
+/// per subscriber: messages published since it was last known to be in sync (`None`: not known)
+type Pending = Rc<RefCell<Vec<Option<usize>>>>;
 
 fn woke_text(flags: &Flags) -> String {
     let mut ids = vec![];
@@ -76,7 +78,22 @@ fn apply_op(ov: &mut ObservableVector<V>, op: &Op) -> String {
 }
 
 /// perform one injected action on the vector; the produced protocol lines go to `lines`; the C14/C08 wake rule is checked
-fn perform(act: &Act, vs: &Rc<RefCell<Vs>>, flags: &Flags, lines: &Lines, fails: &Rc<RefCell<Vec<(String, String)>>>) {
+/// does the committed transaction publish a message (did any of its calls record a diff)?
+fn txn_records(ops: &[Op], mut len: usize) -> bool {
+    let mut rec = false;
+    for o in ops {
+        match o {
+            Op::Clear => rec = true,
+            Op::PopF | Op::PopB => { if len > 0 { rec = true; } }
+            Op::Trunc(n) => { if *n < len { rec = true; } }
+            _ => rec = true,
+        }
+        len = predict_len(len, &Act::Op(o.clone()));
+    }
+    rec
+}
+
+fn perform(act: &Act, vs: &Rc<RefCell<Vs>>, flags: &Flags, lines: &Lines, fails: &Rc<RefCell<Vec<(String, String)>>>, pending: &Pending) {
     let mut vs = vs.borrow_mut();
     if vs.ov.is_none() { return; }
     let parked_before: Vec<usize> = flags.borrow().iter().enumerate().filter(|(_, (_, p))| *p).map(|(i, _)| i).collect();
@@ -87,6 +104,7 @@ fn perform(act: &Act, vs: &Rc<RefCell<Vs>>, flags: &Flags, lines: &Lines, fails:
             let ret = apply_op(vs.ov.as_mut().unwrap(), op);
             let after = vs.contents();
             published = before != after || matches!(op, Op::Append(_) | Op::Set(..));
+            if published { for p in pending.borrow_mut().iter_mut() { if let Some(n) = p { *n += 1; } } }
             let w = woke_text(flags);
             lines.borrow_mut().push((op.text(), format!("{ret} vals={}{w}", fmt_list(&after))));
         }
@@ -114,6 +132,8 @@ fn perform(act: &Act, vs: &Rc<RefCell<Vs>>, flags: &Flags, lines: &Lines, fails:
             t.commit();
             let after = vs.contents();
             published = before != after;
+            // one unit: a commit publishes exactly one message (if anything was recorded)
+            if txn_records(ops, before.len()) { for p in pending.borrow_mut().iter_mut() { if let Some(n) = p { *n += 1; } } }
             let w = woke_text(flags);
             lines.borrow_mut().push(("t.commit".into(), format!("ok vals={}{w}", fmt_list(&after))));
         }
@@ -146,6 +166,8 @@ pub struct World {
     vs: Rc<RefCell<Vs>>,
     subs: Vec<Option<SubS>>,
     flags: Flags,
+    pending: Pending,
+    capacity: usize,
 }
 
 fn kind_text(k: RecvKind) -> &'static str {
@@ -159,6 +181,8 @@ impl World {
             vs: Rc::new(RefCell::new(Vs { ov: Some(ObservableVector::with_capacity(capacity)), final_state: None })),
             subs: vec![],
             flags: Rc::new(RefCell::new(vec![])),
+            pending: Rc::new(RefCell::new(vec![])),
+            capacity,
         }
     }
     pub fn alive(&self) -> bool { self.vs.borrow().ov.is_some() }
@@ -168,7 +192,7 @@ impl World {
     pub fn act(&mut self, sink: &mut Sink, act: &Act) {
         let lines: Lines = Rc::new(RefCell::new(vec![]));
         let fails = Rc::new(RefCell::new(vec![]));
-        perform(act, &self.vs, &self.flags, &lines, &fails);
+        perform(act, &self.vs, &self.flags, &lines, &fails, &self.pending);
         for (o, r) in lines.borrow().iter() { sink.line(o, r); }
         for (p, w) in fails.borrow().iter() { sink.oracle_fail(p, w); }
     }
@@ -191,6 +215,7 @@ impl World {
         drop(vs);
         self.subs.push(Some(SubS { st, batched, waker, replica: snap, ended: false }));
         self.flags.borrow_mut().push((flag, false));
+        self.pending.borrow_mut().push(Some(0));
         id
     }
 
@@ -202,15 +227,18 @@ impl World {
         let count = Rc::new(Cell::new(0usize));
         // the contents at the moment of the latest receive operation (what a Reset decided there must carry)
         let at_recv: Rc<RefCell<Option<Vec<V>>>> = Rc::new(RefCell::new(None));
+        let kinds: Rc<RefCell<Vec<RecvKind>>> = Rc::new(RefCell::new(vec![]));
+        let injected = script.iter().any(|a| !a.is_empty());
         {
-            let (lines, fails, count, vs, flags, at_recv) = (lines.clone(), fails.clone(), count.clone(), self.vs.clone(), self.flags.clone(), at_recv.clone());
+            let (lines, fails, count, vs, flags, at_recv, pending, kinds) = (lines.clone(), fails.clone(), count.clone(), self.vs.clone(), self.flags.clone(), at_recv.clone(), self.pending.clone(), kinds.clone());
             set_recv_hook(Some(Box::new(move |kind| {
                 let k = count.get();
                 count.set(k + 1);
                 *at_recv.borrow_mut() = Some(vs.borrow().contents());
+                kinds.borrow_mut().push(kind);
                 lines.borrow_mut().push((format!("mrecv {i}"), kind_text(kind).to_string()));
                 if let Some(acts) = script.get(k) {
-                    for a in acts { perform(a, &vs, &flags, &lines, &fails); }
+                    for a in acts { perform(a, &vs, &flags, &lines, &fails, &pending); }
                 }
             })));
         }
@@ -263,6 +291,33 @@ impl World {
             }
         };
         drop(vs);
+        // message accounting (C06: a Reset only if more than `capacity` messages were pending; C07 / C13: a commit is ONE
+        // message, so a batched poll performs exactly one successful receive operation per published message)
+        {
+            let oks = kinds.borrow().iter().filter(|k| **k == RecvKind::Ok).count();
+            let lagged = kinds.borrow().iter().any(|k| *k == RecvKind::Lagged);
+            let batched = self.subs[i].as_ref().unwrap().batched;
+            let mut pend = self.pending.borrow_mut();
+            let before = pend[i];
+            pend[i] = if injected { if text == "Pending" { Some(0) } else { None } } else {
+                match before {
+                    Some(n) => {
+                        if lagged {
+                            if n <= self.capacity { sink.oracle_fail("C06,C07", &format!("subscriber {i}: lagged (Reset) although only {n} message(s) had been published for it, capacity {}", self.capacity)); }
+                            Some(0)
+                        } else if text == "Pending" {
+                            if n != 0 { sink.oracle_fail("C05,C14", &format!("subscriber {i}: Pending although {n} message(s) are owed to it")); }
+                            Some(0)
+                        } else if text == "End" || text == "panic" { Some(0) }
+                        else if batched {
+                            if oks != n { sink.oracle_fail("C07,C13,C06", &format!("batched subscriber {i}: {n} message(s) were published (one per update, one per commit) but this poll_next received {oks}")); }
+                            Some(0)
+                        } else { Some(n.saturating_sub(oks)) }
+                    }
+                    None => if text == "Pending" || lagged { Some(0) } else { None },
+                }
+            };
+        }
         sink.line(&format!("mret {i}"), &text);
         let rep = fmt_list(&self.subs[i].as_ref().unwrap().replica);
         sink.line(&format!("replica {i}"), &rep);
@@ -332,6 +387,27 @@ pub fn run(args: &Args, sink: &mut Sink) {
         }
     }
     sink.stat_n("exhaustive.X", nx);
+    // T. long transactions: ONE message whatever the number of recorded diffs
+    let mut nt = 0u64;
+    for cap in [1usize, 2, 4] {
+        for batched in [false, true] {
+            for n in [2usize, 31, 32, 33, 40, 64, 65, 70, 129] {
+                nt += 1;
+                sink.case(&format!("T{nt}"));
+                let mut w = World::new(sink, cap);
+                w.act(sink, &Act::Op(Op::Append(vec![100, 101])));
+                let i = w.subscribe(sink, batched);
+                let ops: Vec<Op> = (0..n).map(|k| Op::Set(k % 2, 200 + k as V)).collect();
+                w.act(sink, &Act::Txn(ops));
+                let _ = i;
+                w.settle(sink);
+                w.act(sink, &Act::Op(Op::PushB(7)));
+                w.settle(sink);
+                sink.nontrivial();
+            }
+        }
+    }
+    sink.stat_n("long_txn.T", nt);
     // R. random: several subscribers of both flavours, random operations between the polls, random injections
     let rounds = if thorough { 60000 } else { 1500 };
     for r in 0..rounds {
